@@ -145,7 +145,7 @@ func cmdCheck(args []string) {
 	}
 	E, V := setup() // exits 2 when /repo does not load: nothing is claimed then
 	V.Replay = cfg.Replay
-	timeout := 10.0
+	timeout := 20.0
 	if tier == "thorough" {
 		timeout = 60.0
 		V.Solver.TwoSolver = true
